@@ -142,7 +142,7 @@ fn ipc_batch_input(r: &mut Rng) -> (Args, String) {
 }
 
 fn gen_probes(tier: &str, r: &mut Rng, emit: &mut dyn FnMut(Case)) {
-    let scale = if tier == "thorough" { 8 } else { 1 };
+    let scale = if tier == "thorough" { 5 } else { 1 };
     let mut jobs: Vec<(String, Args)> = Vec::new(); let mut meta: Vec<(&'static str, &'static str, String)> = Vec::new();
     for _ in 0..700 * scale { let (b, t) = thrift_meta_input(r); jobs.push(("c08.thrift_meta".into(), vec![gbytes(&b)])); meta.push(("c08.thrift_meta", "c08.thrift_meta.post", t)); }
     for _ in 0..400 * scale { let (b, t) = schema_probe_input(r); jobs.push(("c08.schema_probe".into(), vec![gbytes(&b)])); meta.push(("c08.schema_probe", "c08.schema_probe.post", t)); }
